@@ -121,6 +121,15 @@ pub fn replay(cases: &str, verdicts: &str) {
         let cs: Vec<f64> = x.iter().scan(0.0, |s, t| { *s += t; Some(*s) }).collect();
         let g = guard(|| difference(cs.clone()));
         v.check(g.as_ref().map(|g| all_eq(g, &x[1..])).unwrap_or(false), "difference", "of-cumsum", &c, json!(g.as_ref().map(|g| fjs(g))));
+        // repeated differencing: each pass shortens the series by one - the n-th pass of an n-point series leaves the empty series
+        let mut cur = x.clone();
+        for (d, want) in c["diffs"].as_array().unwrap().iter().enumerate() {
+            let want = f64s(want);
+            let g = guard(|| difference(cur.clone()));
+            let ok = g.as_ref().map(|g| g.len() == want.len() && all_eq(g, &want)).unwrap_or(false);
+            v.check(ok, "difference", if want.is_empty() { "repeated down-to-empty" } else { "repeated" }, &json!({"x": c["x"], "pass": d + 1}), json!(g.as_ref().map(|g| fjs(g))));
+            match g { Some(g) => cur = g, None => break }
+        }
     });
     v.finish();
 }
